@@ -184,3 +184,5 @@ def run(ck):
             # v0 hash for v0 transaction, v1 for v1
             ck.ob("TAB", p, "version-agreement", v[0][1]["f"]["path"].endswith("_v1") == h[0][1]["f"]["path"].endswith("_v1"),
                   "hash version equals verifier version", f.loc())
+
+    narrowing_len_sweep(ck, crate("rs", "concordium_base"), re.compile(r"concordium_base::transactions::"), re.compile(r"(verify|check)[a-z_0-9]*(::\\{closure#\\d+\\})*$"))
